@@ -178,6 +178,8 @@ MUTANTS = [
      "         Action< Rule >::failure( const_cast< const ParseInput& >( in ), st... );\n         return false;", "         return false;", ["C08"], "control_action never reports failure to the action"),
     ("m71-add-state-success-always", I + "contrib/add_state.hpp",
      "            AddState s;\n            if( TAO_PEGTL_NAMESPACE::match< Rule, A, M, Action, Control >( in, s, st... ) ) {\n               if constexpr( A == apply_mode::action ) {", "            AddState s;\n            if( TAO_PEGTL_NAMESPACE::match< Rule, A, M, Action, Control >( in, s, st... ) ) {\n               if constexpr( true ) {", ["C13"], "add_state delivers success with actions disabled"),
+    ("m75-mask-uint-size-minus-one", I + "contrib/internal/peek_mask_uint.hpp",
+     "if( in.size( sizeof( data_t ) ) < sizeof( data_t ) ) {", "if( in.size( sizeof( data_t ) ) < sizeof( data_t ) - 1 ) {", ["C03"], "masked uintN rules read one byte beyond the end"),
     ("m73-tracer-unwind-no-pop", I + "contrib/trace.hpp",
      "      void unwind( const ParseInput& in, States&&... /*unused*/ )\n      {\n         const auto prev = m_stack.back();\n         m_stack.pop_back();", "      void unwind( const ParseInput& in, States&&... /*unused*/ )\n      {\n         const auto prev = m_stack.back();", ["C08"], "tracer keeps the entry of an unwound rule on its stack"),
     ("m74-state-control-apply0-not-forwarded", I + "contrib/state_control.hpp",
